@@ -1,6 +1,6 @@
 """C04 — eval fails only with the JSError family."""
 
-from ..rules import builtins, encoding, exceptions
+from ..rules import builtins, encoding, exceptions, frontprogress
 
 
 def run(ctx, rep):
@@ -13,6 +13,7 @@ def run(ctx, rep):
         implicit = None
     if implicit is not None:
         implicit.rule_implicit_raisers(ctx, rep, "C04-R2")
+    # frontprogress.rule_frontend_progress(ctx, rep, "C04-R5")  # under construction: idioms still being enumerated
     builtins.rule_index_bound_survives_callback(ctx, rep, "C04-R6")
     rep.undecided += [
         "that reported line/column are the right numbers (value property)",
